@@ -108,9 +108,18 @@ def check(rule_arm, fn, exc, cond_ok, effects, what, effect_desc):
                 else:
                     out.append(x)
                 return out
-            cs_ = conj(fn.term(c, inline=True), [])
-            if len(cs_) > 1 and any(cond_ok(x, fn) for x in cs_):
-                part = True
+            cs_ = conj(fn.term(c, inline=False), [])
+            cs_i = conj(fn.term(c, inline=True), [])
+            if len(cs_) > 1 and len(cs_) == len(cs_i) and any(cond_ok(x, fn) for x in cs_i):
+                # only when every other conjunct is a (negated) local flag - a fact about where the loop is (`!first_pair`), not about
+                # the data or the container; a conjunct on the arguments or on the state weakens the documented rejection
+                def is_flag(x):
+                    x = strip_cast(x)
+                    while x[0] == 'un' and x[1] == '!':
+                        x = strip_cast(x[2])
+                    return x[0] == 'local'
+                others = [x for x, xi in zip(cs_, cs_i) if not cond_ok(xi, fn)]
+                part = bool(others) and all(is_flag(x) for x in others)
         obs.append(Ob('GUARD-DOM', fn, live[0], what, 'rejection is guarded by `' + '` / `'.join(seen) + '`, ' +
                       ('of which the documented condition is only one conjunct' if part else 'not by the documented condition'), UNDECIDED if part else VIOLATED, arm=rule_arm))
         return obs
@@ -440,7 +449,11 @@ def rules_c20(ctx):
             goodw = [w for w in lx if is_x(f.term(f.n(w)['ch'][1], inline=True))]
             badw = [w for w in lx if w not in goodw]
             pbs = {f.block_of(w)[0] for w in goodw if f.block_of(w)}
-            okl = bool(goodw) and not badw and g.must_pass(g.entry, g.exit, pbs | {b for b in g.reach if g.blocks[b].get('noreturn')} | _throw_blocks(f))
+            # on every path to a return that accepts the point (a rejected point is re-added by the caller to a fresh segment,
+            # whose first-point path sets last_x)
+            acc = [r_ for r_ in f.returns() if f.n(r_)['ch'] and strip_cast(f.term(f.n(r_)['ch'][0], inline=True)) != ('lit', 0) and f.block_of(r_)]
+            via = pbs | {b for b in g.reach if g.blocks[b].get('noreturn')} | _throw_blocks(f)
+            okl = bool(goodw) and not badw and bool(acc) and all(g.must_pass(g.entry, f.block_of(r_)[0], via) for r_ in acc)
             w = (badw or lx)[0]
             rhs = f.term(f.n(w)['ch'][1], inline=True)
             why = (f"last_x = {fmt_term(rhs)} at line {f.n(w)['l']}" if len(lx) == 1 else f"{len(lx)} assignments of last_x ({len(badw)} not from x)") + f" on every non-throwing path: {okl}"
